@@ -46,6 +46,49 @@ pub fn check_framing(buf: &[u8], header: &RtpsMessageHeader, kind_id: u8, body_l
     assert!(wire_u16(buf, 22) as usize == body_len, "C08: octetsToNextHeader differs from the encoded element length");
 }
 
+/// Copies the encoded message into a local array and re-writes the bytes the parser branches on
+/// (protocol id, submessage id, octetsToNextHeader, optionally the flags octet) with the constants
+/// they were just ASSERTED to equal. Semantically a no-op; it only lets CBMC's constant
+/// propagation see them (the container builds the message in a growing heap Vec whose contents
+/// are opaque to it - without this the 12-way dispatcher of RtpsMessageRead::try_from explores
+/// every decoder on symbolic input and does not finish: measured > 900 s for one HEARTBEAT).
+pub fn image<const N: usize>(buf: &[u8], header: &RtpsMessageHeader, kind_id: u8, flags: Option<u8>) -> [u8; N] {
+    check_framing(buf, header, kind_id, N - 24);
+    let mut img = [0u8; N];
+    img.copy_from_slice(buf);
+    img[0] = b'R';
+    img[1] = b'T';
+    img[2] = b'P';
+    img[3] = b'S';
+    img[20] = kind_id;
+    let l = ((N - 24) as u16).to_le_bytes();
+    img[22] = l[0];
+    img[23] = l[1];
+    if let Some(f) = flags {
+        assert!(img[21] == f, "C08: flags octet");
+        img[21] = f;
+    }
+    img
+}
+
+/// Assert that the little-endian u32 / u16 at `off` equals `v`, then re-write it with that constant
+/// (see `image`): used for the length-like fields the decoders loop or branch on (numBits, bitmap
+/// words of a FragmentNumberSet, parameter length, sentinel).
+pub fn pin_u32(img: &mut [u8], off: usize, v: u32, what: &'static str) {
+    assert!(wire_u32(img, off) == v, "{}", what);
+    let x = v.to_le_bytes();
+    img[off] = x[0];
+    img[off + 1] = x[1];
+    img[off + 2] = x[2];
+    img[off + 3] = x[3];
+}
+pub fn pin_u16(img: &mut [u8], off: usize, v: u16, what: &'static str) {
+    assert!(wire_u16(img, off) == v, "{}", what);
+    let x = v.to_le_bytes();
+    img[off] = x[0];
+    img[off + 1] = x[1];
+}
+
 /// Decode with the REAL message parser; the message must contain exactly one submessage.
 pub fn decode_single(buf: &[u8], header: &RtpsMessageHeader) -> RtpsMessageRead {
     match RtpsMessageRead::try_from(buf) {
